@@ -6,7 +6,7 @@ PROP = {
                      "SwimVerif.Generated.DownlinkConsts", "SwimVerif.Model.WriteTask"],
     "engines": [
         {"name": "dlrt", "crate": "core", "bin": "sv-c07", "machine": "c07",
-         "cases": {"quick": 24000, "thorough": 1600000}, "min_shard": 1500, "nontrivial_min_ops": 4},
+         "cases": {"quick": 120000, "thorough": 2400000}, "min_shard": 1500, "nontrivial_min_ops": 4},
     ],
     "level_text": "Proof: for every sequence of loop events of the downlink runtime's read task (consumers attaching "
                   "with any options at any time, any remote notification sequence incl. uninterpretable map frames, "
